@@ -203,8 +203,9 @@ End HyperBall.
 (** register vectors under pointwise maximum (HyperLogLog, HyperLogLog8) *)
 Fixpoint regs_join (a b : list N) : list N :=
   match a, b with
+  | [], _ => b
+  | _, [] => a
   | x :: a', y :: b' => N.max x y :: regs_join a' b'
-  | _, _ => []
   end.
 Fixpoint regs_eqb (a b : list N) : bool :=
   match a, b with
@@ -217,8 +218,9 @@ Definition regs_size (a : list N) : Z := Z.of_N (fold_right N.add 0%N a).
 (** node sets as bit vectors under pointwise disjunction: the exact balls *)
 Fixpoint bits_join (a b : list bool) : list bool :=
   match a, b with
+  | [], _ => b
+  | _, [] => a
   | x :: a', y :: b' => (x || y) :: bits_join a' b'
-  | _, _ => []
   end.
 Fixpoint bits_eqb (a b : list bool) : bool :=
   match a, b with
